@@ -1,6 +1,8 @@
 """C02 - the time-reversed solver returns a circuit that generates the target exactly.
 Boundary monitor on TimeReversedSolver.solve + (vlib.mon.generates) all-branch reference enumeration of the returned
 circuit and lock-step monitored compiles on both backends; tableau monitor and DAG monitor are active while solve() runs."""
+import json
+import os
 import traceback
 import numpy as np
 
@@ -8,8 +10,9 @@ from ..mon.compile import CompileMonitor
 from ..mon.tableau import TableauMonitor
 from ..mon.dag import DagMonitor
 from ..mon import generates
+from ..mon.trs_paths import PathProbe
 from ..ref import graphs, pauli, dense
-from .. import gq
+from .. import gq, boot
 
 ID = "C02"
 LEVEL = "exploration"
@@ -32,6 +35,8 @@ def shards(tier, seed):
         out.append({"kind": "random", "count": 24 if tier == "quick" else 300, "seed": seed, "shard": i})
     for i in range(8 if tier == "quick" else 16):
         out.append({"kind": "dip", "count": 45 if tier == "quick" else 400, "seed": seed, "shard": i})
+    for i in range(6):
+        out.append({"kind": "corpus", "part": i, "nparts": 6, "seed": seed, "shard": i})
     if tier == "thorough":
         for i in range(64):
             out.append({"kind": "all6", "part": i, "nparts": 64, "seed": seed, "shard": i})
@@ -41,7 +46,8 @@ def shards(tier, seed):
 def floors(tier):
     return {"solver:runs": 120, "solver:returned": 80, "presentation:g": 30, "presentation:s": 30, "presentation:dm": 20,
             "circuits:with_reset_then_emission": 10, "generates:branches": 200, "generates:compiles": 400, "score:checked": 80,
-            "targets:n>=9": 5 if tier == "quick" else 100, "targets:profile_dip_with_two_emitters": 200}
+            "targets:n>=9": 5 if tier == "quick" else 100, "targets:profile_dip_with_two_emitters": 200,
+            "targets:from_path_corpus": 60, "set:trs_path_signatures": 25, "trs_path:multi_emitter_generator": 30}
 
 
 def lattice(r, c):
@@ -70,6 +76,8 @@ def run_shard(spec, ctx):
         ctx.violation("dag:" + kind, dict(state["case"] or {}), detail, key=f"dag:{kind}")
     TableauMonitor(rep_t, ctx.count).install()
     DagMonitor(rep_d, ctx.count).install()
+    paths = PathProbe(ctx.count).install()
+    state["paths"] = paths
     rng = np.random.default_rng([spec["seed"], 2, spec["shard"], 0 if spec["kind"] == "all" else 1])
     if spec["kind"] == "dip":
         # many targets whose entanglement profile drops while two or more emitters are in use (selected with the oracle):
@@ -85,6 +93,18 @@ def run_shard(spec, ctx):
                 ctx.count("targets:profile_dip_with_two_emitters")
                 solve_and_check(C, "g", rng, ctx, m, mon, state, light=True)
                 done += 1
+        return
+    if spec["kind"] == "corpus":
+        # one target (up to three) for every path signature of the time-reversed measurement known on the pinned tree
+        with open(os.path.join(boot.VERIF, "corpus", "c02_trs_paths.json")) as f:
+            sigs = json.load(f)["signatures"]
+        j = 0
+        for sig in sorted(sigs):
+            for adj in sigs[sig]:
+                if j % spec["nparts"] == spec["part"]:
+                    ctx.count("targets:from_path_corpus")
+                    solve_and_check(np.array(adj), "g", rng, ctx, m, mon, state, light=True)
+                j += 1
         return
     if spec["kind"] == "all6":
         j = 0
@@ -217,6 +237,9 @@ def solve_and_check(A, rep, rng, ctx, m, mon, state, rseed=None, light=False):
         return
     mon.pop_runs()
     ctx.count("solver:returned")
+    if state.get("paths") is not None:
+        for sig in state["paths"].take():
+            ctx.seen("trs_path_signatures", sig)
     # emission after a measure-and-reset on the same emitter?
     seen_mr = set()
     for op in circ.sequence(unwrapped=True):
